@@ -1,5 +1,5 @@
 from ..report import Ob
-from ..obs import wlayout as WL
+from . import common as K
 
 TITLE = "every written file is a well-formed BBI file (writer vs. published format table)"
 EXPLANATION = (
@@ -7,26 +7,8 @@ EXPLANATION = (
     "write_chrom_tree, write_rtreeindex, write_tree, the three section encoders) with the published BBI layout "
     "transcribed in btverif/spec/bbi_format.py: field order, widths, integer/float kind, reserved zeros, byte order, "
     "provenance of the value put in every slot (parameter position / struct field / first-last-max item), the "
-    "compression tail (zlib stream, uncompressed size reported), and block/R-tree spans covering their contents. "
-    "Decides structure for every input at once; does not decode any concrete file.")
-UNDECIDED = "that decoding a produced file yields exactly the input records (content is C01/C02's remainder)"
-ASSUMPTIONS = [
-    "byteorder::WriteBytesExt::write_uN::<E> emits exactly N/8 bytes in order E; Write::write_all emits the slice",
-    "libdeflater Compressor::zlib_compress produces a standard zlib stream",
-    "the format table in btverif/spec/bbi_format.py is a faithful transcription of the published layout",
-]
-
-OBLIGATIONS = [
-    Ob("C09-L1a", "R-LAYOUT", "write_blank_headers zero-fills exactly 64 + MAX_ZOOM_LEVELS*24 bytes at offset 0", WL.ob_blank_headers),
-    Ob("C09-L1", "R-LAYOUT", "write_info: common header, zoom directory, total summary, data count, trailing magic as published; slot provenance", WL.ob_write_info, floor=6),
-    Ob("C09-L1b", "R-LAYOUT", "bigWig write_pre: placeholders and recorded offsets", WL.ob_write_pre_bw),
-    Ob("C09-L1c", "R-LAYOUT", "bigBed write_pre: autoSql C string, placeholders and recorded offsets", WL.ob_write_pre_bb, floor=2),
-    Ob("C09-L2", "R-LAYOUT", "chromosome B+ tree: 32-byte header, single leaf, padded keys, sorted by id", WL.ob_chrom_tree_w, floor=3),
-    Ob("C09-L3", "R-LAYOUT", "cirTree header 48 bytes with provenance", WL.ob_cir_header_w),
-    Ob("C09-L4", "R-LAYOUT", "R-tree node emission (leaf 32-byte items, non-leaf 24-byte items) and size constants", WL.ob_write_tree_w, floor=3),
-    Ob("C09-L4c", "R-LAYOUT", "NODEHEADER/LEAFNODE/NON_LEAFNODE size constants equal the format's", WL.ob_rtree_consts, floor=3),
-    Ob("C09-L5", "R-LAYOUT", "bigWig section: 24-byte header + 12-byte bedGraph items; span; compression tail", WL.ob_wig_section_w, floor=5),
-    Ob("C09-L6", "R-LAYOUT", "bigBed block: 12-byte fixed part + rest + NUL; block span covers every entry; compression tail", WL.ob_bed_section_w, floor=4),
-    Ob("C09-L7", "R-LAYOUT", "zoom block: 32-byte records from like-named Summary fields; span; compression tail", WL.ob_zoom_section_w, floor=4),
-    Ob("C09-E1", "R-TABLE", "one byte order in every multi-byte emission of the writer modules", WL.ob_one_endian),
-]
+    "compression tail (zlib stream, uncompressed size reported), block/R-tree spans covering their contents, and the "
+    "flush predicates bounding items per block. Decides structure for every input at once.")
+UNDECIDED = "that decoding a produced file yields exactly the input records (content is C01/C02's remainder); no concrete file is decoded."
+ASSUMPTIONS = [K.A_BYTEORDER, K.A_ZLIB, K.A_TABLE, K.A_PRED]
+OBLIGATIONS = K.WRITER_LAYOUT + [K.WIG_SECTION_W, K.BED_SECTION_W, K.ZOOM_SECTION_W] + K.SPANS + [K.WIG_FLUSH, K.BED_FLUSH, K.WRITE_DATA, K.WRITE_MID, K.HEADER_ARGS, K.BUFSIZE, K.INDEX_PAIRS, K.ZOOM_OFFSETS]
